@@ -5,7 +5,7 @@ SAN = ["-g", "-O1", "-fno-omit-frame-pointer", "-fsanitize=address,undefined", "
 
 VARIANTS = {
     # gcc + AddressSanitizer + UBSan: default for E1/E2
-    "asan": {"cc": "gcc", "cflags": SAN, "ldflags": []},
+    "asan": {"cc": "gcc", "cflags": SAN, "ldflags": [], "econftool": True},
     # plain optimised build: 2^32 sweeps (C08) and the econftool binary (C19)
     "plain": {"cc": "gcc", "cflags": ["-g", "-O2"], "ldflags": [], "econftool": True},
     # ThreadSanitizer, free-running pass of C18
@@ -341,4 +341,21 @@ CHECKS["C15"] = {
         {"name": "options", "harness": "c15", "variant": "asan", "quick": ["--p0", 2, "--p1", 3], "thorough": ["--p0", 2, "--p1", 4], "deadline_share": 0.3, "floor": {"quick": 300, "thorough": 3000}},
     ],
     "assumptions": ["JOIN_SAME_ENTRIES=0 / PYTHON_STYLE=0 are not documented items and not used"],
+}
+
+CHECKS["C14"] = {
+    "engine": "E1",
+    "technique": "exhaustive enumeration of the finite product field kind x boundary length x copying API on the real code under ASan (lengths around BUFSIZ, PATH_MAX, NAME_MAX)",
+    "level_text": "for every field kind (key, value, continuation line, section name, comment before, comment after) and every length in {1, 8190..8194, 16384, "
+                  "65536, 1 Mi}: read, key/section listings, plain and extended getter, merge in both roles, write + re-read, layered read and error location "
+                  "must return exactly the bytes written; drop-in names of 100/254/255 bytes; file paths of 4000..4200 bytes around PATH_MAX (success below, "
+                  "error code at and above); option strings and unknown option names of those lengths; econftool --delimiters of those lengths (up to 64 Ki)",
+    "level_note": "finite product, completely enumerated (quick without the 1 MiB column); trusted: ASan/UBSan, tmpfs limits = Linux NAME_MAX 255 / PATH_MAX 4096",
+    "rule": "case = (field kind, length); non-trivial = length > 1; distinct by construction",
+    "deadline": {"quick": 100, "thorough": 600},
+    "parts": [
+        {"name": "lengths", "harness": "c14", "variant": "asan", "quick": ["--p0", 0], "thorough": ["--p0", 1], "case_timeout": 120,
+         "floor": {"quick": 50, "thorough": 60}},
+    ],
+    "assumptions": ["allocation failure is not injected"],
 }
